@@ -24,6 +24,7 @@ func init() {
 }
 
 func runC32(c *core.Ctx) {
+	checkSignsStayCleared(c, "C32.cleared-stays-cleared")
 	checkApprovalNamesTheRequest(c)
 	fn := c.Fn(pkNM, "CheckConsensusSigns")
 	getCS := eng.Obj(c, pkNM, "getConsensusSigns")
@@ -42,11 +43,29 @@ func runC32(c *core.Ctx) {
 		keyCall, _ = ci.(*ssa.Call)
 	}
 	okKey := false
-	if keyCall != nil {
-		if ap, ok := ir.Strip(keyCall.Common().Args[0]).(*ssa.Call); ok {
+	shaOf := func(sum *ssa.Call) bool {
+		if ap, ok := ir.Strip(sum.Common().Args[0]).(*ssa.Call); ok {
 			if b, isB := ap.Common().Value.(*ssa.Builtin); isB && b.Name() == "append" {
-				okKey = param("method")(ap.Common().Args[0]) && param("input")(ap.Common().Args[1])
+				return param("method")(ap.Common().Args[0]) && param("input")(ap.Common().Args[1])
 			}
+		}
+		return false
+	}
+	if keyCall != nil {
+		okKey = shaOf(keyCall)
+	} else {
+		// the key may be computed by a same-package helper handed (method, input)
+		for _, ci := range ir.Calls(fn, nil) {
+			cl, isCall := ci.(*ssa.Call)
+			if !isCall || cl.Common().StaticCallee() == nil || cl.Common().StaticCallee().Pkg != fn.Pkg {
+				continue
+			}
+			via, release := valueVia(cl)
+			if sum, isSum := ir.Strip(via).(*ssa.Call); isSum && via != ssa.Value(cl) && ir.IsPkgFunc(sum, "crypto/sha256", "Sum256") && shaOf(sum) {
+				keyCall, okKey = cl, true
+				c.Attribute(cl.Common().StaticCallee(), fn)
+			}
+			release()
 		}
 	}
 	pos := fn.Pos()
